@@ -7,6 +7,7 @@
 #include "harness/c01.h"
 
 #include <cnl/all.h>
+#include <cmath>
 #include <sstream>
 
 #if defined(__SANITIZE_ADDRESS__)
@@ -112,6 +113,7 @@ void ints(char const* desc, int kid, int maxlen)
     printf("{\"t\":\"kd\",\"id\":%d,\"k\":\"%s\",\"kind\":\"int\",\"signed\":%d}\n", kid, desc, (int)cnl::numbers::signedness_v<T>);
     std::vector<X> vals;
     std::vector<T> tv;
+    std::vector<std::string> wdesc;
     if constexpr (!wide) {
         size_t nd;
         vals = RT<T>::values(rng, nd, env_long("VERIF_NRAND", 6), 8);
@@ -124,25 +126,31 @@ void ints(char const* desc, int kid, int maxlen)
         }
         for (auto const& v : vals) tv.push_back(deep<T>(v));
     } else {
-        // wide_integer: values built from shifts so that the harness knows them exactly
-        for (int k : {0, 1, 7, 63, 64, 65, 100, 127, 128, 129, 150, 190}) {
-            if (k >= (int)std::numeric_limits<T>::digits) continue;
+        // wide_integer: values built from shifts so that the harness knows them exactly; described symbolically
+        // (E<k>:<d>:<neg> = +-(2^k + d)) because they can exceed the 256 bits of X
+        int const D = (int)std::numeric_limits<T>::digits;
+        for (int k : {0, 1, 7, 63, 64, 65, 100, 127, 128, 129, 150, 190, 255, 256, 300, 511, D - 2, D - 1}) {
+            if (k >= D || k < 0) continue;
             for (int d : {-1, 0, 1}) {
                 if (k == 0 && d < 0 && !cnl::numbers::signedness_v<T>) continue;
-                X x = xpow2((unsigned)k) + X::from_i(d);
                 T t = (T{1} << k) + T{d};
-                vals.push_back(x); tv.push_back(t);
-                if (cnl::numbers::signedness_v<T>) { vals.push_back(-x); tv.push_back(-t); }
+                wdesc.push_back("E" + std::to_string(k) + ":" + std::to_string(d) + ":0"); tv.push_back(t); vals.push_back(k < 250 ? xpow2((unsigned)k) + X::from_i(d) : xpow2(250));
+                if (cnl::numbers::signedness_v<T>) { wdesc.push_back("E" + std::to_string(k) + ":" + std::to_string(d) + ":1"); tv.push_back(-t); vals.push_back(k < 250 ? -(xpow2((unsigned)k) + X::from_i(d)) : -xpow2(250)); }
             }
         }
-        vals.push_back(X()); tv.push_back(T{0});
+        wdesc.push_back("E0:-1:0"); tv.push_back(T{0}); vals.push_back(X());
+        // the limits of the type: max() = 2^D - 1, lowest() = -2^D (signed)
+        wdesc.push_back("E" + std::to_string(D) + ":-1:0"); tv.push_back(std::numeric_limits<T>::max()); vals.push_back(xpow2(250));
+        if (cnl::numbers::signedness_v<T>) { wdesc.push_back("E" + std::to_string(D) + ":0:1"); tv.push_back(std::numeric_limits<T>::lowest()); vals.push_back(-xpow2(250)); }
     }
     Arena ar;
     for (size_t i = 0; i < vals.size(); ++i) {
-        printf("V %d %zu %s\n", kid, i, vals[i].str().c_str());
+        printf("V %d %zu %s\n", kid, i, wide ? wdesc[i].c_str() : vals[i].str().c_str());
         for (int base : {10, 2, 3, 8, 16, 36}) {
             // every length 0..needed+2 (needed estimated from the magnitude), then a coarse sweep
             int need = 2;
+            if (wide) need = 3 + (int)((double)std::numeric_limits<T>::digits * 0.6931471805599453 / std::log((double)base));
+            else
             for (X m = vals[i].neg ? -vals[i] : vals[i]; !m.zero(); m = tdiv(m, X::from_u((unsigned)base))) ++need;
             for (int len = 0; len <= need + 2 && len <= maxlen; ++len) {
                 T const& v = tv[i];
